@@ -208,6 +208,21 @@ pub fn gen_program_x(rng: &mut Rng, nvars: usize, nops: usize, allow_newvar: boo
             ops.push(Op::And(p, f)); // base+14 == p & f
             continue;
         }
+        // literal if-then-else (one step in twelve, three or more variables): `ite` of three
+        // literals over distinct variables, next to the same function assembled from and / or
+        if cur_vars >= 3 && rng.chance(1, 12) {
+            let vs = rng.perm(cur_vars);
+            let base = ops.len();
+            ops.push(Op::Var(vs[0], rng.coin())); // base   : guard
+            ops.push(Op::Var(vs[1], rng.coin())); // base+1 : then
+            ops.push(Op::Var(vs[2], rng.coin())); // base+2 : else
+            ops.push(Op::Ite(base, base + 1, base + 2)); // base+3
+            ops.push(Op::Neg(base)); // base+4
+            ops.push(Op::And(base, base + 1)); // base+5
+            ops.push(Op::And(base + 4, base + 2)); // base+6
+            ops.push(Op::Or(base + 5, base + 6)); // base+7 == base+3
+            continue;
+        }
         // asymmetric twins (one step in twelve): `!a . b` followed by `!b . a` for two pool entries
         // (standard triples that are mirror images of each other but denote different functions)
         if ops.len() >= 3 && rng.chance(1, 12) {
